@@ -96,24 +96,26 @@ func (in *InExpr) Resolve(types []reflect.Type, isVariadic bool) error {
 
 // Eval InExpr 表达式执行
 func (in *InExpr) Eval(input []reflect.Value, isVariadic bool) (bool, error) {
-	if isVariadic {
-		// 可变参数需要展开参数数组
-		expandArgs := make([]reflect.Value, 0)
-		for _, v := range input {
-			rv := reflect.ValueOf(v.Interface())
-			for i := 0; i < rv.Len(); i++ {
-				expandArgs = append(expandArgs, rv.Index(i))
-			}
+	if isVariadic && len(input) > 0 {
+		// 可变参数只需要展开最后一个参数(数组), 前面的固定参数保持不变
+		fixed := len(input) - 1
+		rv := reflect.ValueOf(input[fixed].Interface())
+		expandArgs := make([]reflect.Value, 0, fixed+rv.Len())
+		expandArgs = append(expandArgs, input[:fixed]...)
+		for i := 0; i < rv.Len(); i++ {
+			expandArgs = append(expandArgs, rv.Index(i))
 		}
 		input = expandArgs
 	}
 outer:
 	for _, one := range in.expressions {
 		if len(input) != len(one) {
-			return false, nil
+			// 参数个数不同(可变参数), 继续尝试下一组条件
+			continue
 		}
 		for i, param := range one {
-			v, err := param.Eval([]reflect.Value{input[i]}, isVariadic)
+			// input[i] 已经是展开后的单个参数
+			v, err := param.Eval([]reflect.Value{input[i]}, false)
 			if err != nil {
 				return false, err
 			}
